@@ -81,7 +81,11 @@ class CanStaticSchema: public ICanSchema {
 
   private:
     std::optional<std::string> GetMsgName(std::uint16_t sid, const std::array<char,4> bus_name) {
-        std::string bus_name_str(bus_name.begin(), std::find(bus_name.begin(), bus_name.end(), '\0'));
+        auto bus_name_end = bus_name.end();
+        while (bus_name_end != bus_name.begin() && *(bus_name_end - 1) == '\0') {
+            --bus_name_end;
+        }
+        std::string bus_name_str(bus_name.begin(), bus_name_end);
 
         {% for impl in fcp.get_matching_impls("can") %}
         if (sid == {{impl.fields.get('id')}} && bus_name_str == "{{impl.fields.get('bus', 'unkn')}}") {
